@@ -118,6 +118,7 @@ Lemma guarded_shape m o g off len wr l r : os_mmap_ok o = true ->
 Proof.
   intros M. unfold guarded.
   destruct (on_demand g); [|intros H; inv_val; split; [left; reflexivity|intros w E; discriminate]].
+  destruct (len =? 0); [intros H; inv_val; split; [left; reflexivity|intros w E; discriminate]|].
   unfold open_window.
   destruct (window_arith m (os_page o) off len) as [[[pb ip] ws]| |] eqn:WA;
     try (intros H; inv_val; split; [left; reflexivity|intros w E; discriminate]).
@@ -278,12 +279,14 @@ Definition demo_region : xregion :=
   {| xr_size := 8192; xr_prot := 3; xr_flags := 16385; xr_file := Some 0; xr_mflags := 10; xr_mdata := 0;
      xr_kind := XGrant; xr_base := 262144; xr_mapped := None |}.
 
-(* F6a: a zero-length guard at a page-aligned offset asks for a window of 0 pages, which the device
-   refuses; the Err is unwrapped: the access panics *)
-Lemma zero_len_guard_panics_lemma :
-  run_op Debug demo_os demo_region (XSliceGuard 4096 0 false) = ([EvIoctlMap 65 0 266240 false], RPanic) /\
-  (exists w, run_op Debug demo_os demo_region (XSliceGuard 4100 0 false) = (fst (run_op Debug demo_os demo_region (XSliceGuard 4100 0 false)), RDone (Some w))).
-Proof. split; [vm_compute; reflexivity|]. eexists. vm_compute. reflexivity. Qed.
+(* F6a (repaired by the `fix:` commit in /repo: MmapXenSlice::new_with returns a raw dangling guard for
+   an empty range): a zero-length guard maps nothing and completes, at every offset of every region *)
+Lemma zero_len_guard_noop_lemma : forall m o g off wr, guarded m o g off 0 wr = ([], Val None).
+Proof. intros. unfold guarded. destruct (on_demand g); reflexivity. Qed.
+Lemma zero_len_guard_demo_lemma :
+  run_op Debug demo_os demo_region (XSliceGuard 4096 0 false) = ([], RDone None) /\
+  run_op Debug demo_os demo_region (XSliceGuard 4100 0 true) = ([], RDone None).
+Proof. split; vm_compute; reflexivity. Qed.
 
 (* F6b: get_atomic_ref / copy_to_volatile_slice dereference the null-based address of an on-demand
    region without taking a guard: no window is mapped (the log is empty), the access faults *)
